@@ -49,6 +49,11 @@ CATALOGUE = [
     '(define-fun f ((y Int)) Int (f y))\n(declare-const k Int)\n(assert (> (f k) 0))\n',
     '(declare-const g Int)\n(define-fun fg () Int g)\n(assert (p fg))\n',
     '(define-fun h ((y Int)) Int (+ (h y) 1))\n(declare-const k Int)\n(assert (> (h k) (h 0)))\n',
+    # invented names of two generations are taken (a third containment on
+    # one variable, or ddSMT run on its own output): the search for unused
+    # names must still end
+    '(declare-const x String)\n(declare-const x_prefix String)\n(declare-const x_suffix String)\n(declare-const x_prefix_ String)\n(declare-const x_suffix_ String)\n(assert (str.contains x "a"))\n(assert (= x (str.++ x_prefix "b" x_suffix)))\n(assert (= x (str.++ x_prefix_ "c" x_suffix_)))\n',
+    '(declare-const v (_ BitVec 8))\n(declare-const _v (_ BitVec 7))\n(declare-const __v (_ BitVec 6))\n(declare-const ___v (_ BitVec 5))\n(assert (= v (bvadd v #x01)))\n',
     # floating-point literals: their components are bit-vector constants
     # that other mutators (and Constants itself) rewrite on their own
     '(declare-const v7 Float16)\n(assert (distinct (fp (_ bv1 1) (_ bv1 5) (_ bv0 10)) v7))\n',
